@@ -1278,6 +1278,24 @@ def p_one( ctx ):
         if not acts:
             res.bad( src, fn, qn, 'enip_process( addr, data=data ) is never called: requests are not acted upon' )
             continue
+        # the request processor sees the connection's parse data only where a frame was completely received - inside the receive loop; every
+        # other call ( the end of the session, an exception handler ) hands it an EMPTY artifact, its "session over" signal.  Handed the
+        # data of a frame that was cut off, it acts on whatever of the request arrived: a write is executed from an incomplete frame
+        outside = [ a for a in acts if not any( a.stmt is x for x in ast.walk( loop )) ]
+        for a in outside:
+            res.bad( src, a.stmt, '%s: enip_process is handed the connection\'s parse data outside the receive loop' % qn,
+                     'in an exception handler the data is that of a frame which was NOT completely received: the request is acted upon although its final byte never arrived ( the item parsers take the announced length as an upper limit only )', func=qn )
+        acts = [ a for a in acts if a not in outside ]
+        others = [ c for c in ast.walk( fn ) if is_call_to( c, proc_param ) and not any( c is x for a in acts for x in ast.walk( a.stmt if a.kind == 'stmt' else a.expr )) and not any( c is x for a in outside for x in ast.walk( a.stmt )) ]
+        for c in others:
+            dv = [ k.value for k in c.keywords if k.arg == 'data' ]
+            empty = dv and (( isinstance( dv[0], ast.Call ) and not dv[0].args and not dv[0].keywords and ( call_name( dv[0] ) or '' ).split( '.' )[-1] in ( 'dotdict', 'dict' )) or ( isinstance( dv[0], ast.Dict ) and not dv[0].keys ))
+            if empty:
+                res.ok( src, c, '%s: outside the per-frame call enip_process is given an empty artifact ( the end-of-session signal )' % qn )
+            else:
+                res.bad( src, c, '%s: %s' % ( qn, norm_text( ast.unparse( c ))[:70] ), 'outside the per-frame call the request processor must be given an empty artifact: anything else is acted upon as a request', func=qn )
+        if not acts:
+            continue
         for a in acts:
             # outside the frame-parsing loop (the for over the engine)
             inner = _inside( src, a.stmt, ( ast.For, ), loop ) or _inside( src, a.stmt, ( ast.While, ), loop )
@@ -3494,6 +3512,20 @@ def p_route( ctx ):
         res.bad( src, stale[0], 'UCMM.request fails a request because the route connection it waited for was retired meanwhile', 'the session that queued behind a request that timed out is answered with an error ( and terminated ) for a failure that was not its own: with the requests one after the other it is served' )
     else:
         res.bad( src, withs[0] if withs else aw, 'UCMM.request never asks whether the connection it waited for is still the registered one', 'a session blocked on the connection\'s lock while its holder failed goes on to use the closed ( or still busy ) connection' )
+    # (4b) ... and the way back to the look-up ( `continue` ) LEAVES `with <route> as conn:` without an exception: client.__exit__ asserts on a
+    #      normal exit that no response frame is in progress ( self.engine is None ).  The connection that was retired by its previous
+    #      holder - closed in the middle of a response frame - still carries that engine unless client.close() drops it: the session that
+    #      merely waited for it would be failed ( status 0x65, closed ) for the other session's time-out
+    csrc = ctx.src( 'server/enip/client.py' )
+    ex_ = csrc.get( 'client.__exit__' ); cl_ = csrc.get( 'client.close' )
+    asserts_engine = any( isinstance( a_, ast.Assert ) and pmatch( a_.test, 'self.engine is None' ) is not None for a_ in ast.walk( ex_ ))
+    resets = any( isinstance( a_, ast.Assign ) and any( dotted( t_ ) == 'self.engine' for t_ in a_.targets ) and isinstance( a_.value, ast.Constant ) and a_.value.value is None for a_ in walk_no_nested( cl_ ))
+    if stale and asserts_engine:
+        if resets:
+            res.ok( csrc, cl_, 'client.close() drops the frame engine: leaving the with-block of a retired connection is not an error' )
+        else:
+            res.bad( csrc, cl_, 'client.close() leaves the response frame engine of the closed connection in place',
+                     'UCMM.request leaves `with route as conn:` normally ( continue ) when it finds the connection retired; client.__exit__ then asserts self.engine is None and fails the waiting session for a time-out that was not its own ( when the previous holder timed out in the middle of a response frame )', func='client.close' )
     # (5) the failed connection is retired while it is still HELD: the handler that forgets and closes it lies inside `with <route> as conn:`.
     #     Retired only after the with-block was left ( its lock released ), a session queued for the connection obtains it while it is still
     #     registered - the re-check of (4) passes - sends on it, and reads the late reply to the request that timed out
